@@ -20,9 +20,9 @@
     (tested against the real AnalysisHost by checks/C07.py: every query after every history vs a
     fresh host). *)
 From Coq Require Import List NArith Bool.
-From TG.Model Require Import Chars Includes Host HostInst FsOps CoreAst AstToCore Pipeline PipelineHost.
+From TG.Model Require Import Chars Includes Host HostInst FsOps CoreAst AstToCore Pipeline PipelineHost PipelineAll PipelineAllHost.
 From TG.Gen Require Import GenFileSystem.
-From TG.Proofs Require Import IncludesGraph IncludesRefine HostHistory HostTheorems HostFrame HostTotal HostExamples GenFileSystemEq PipelineHostFresh PipelineHostFrame PipelineHostExample.
+From TG.Proofs Require Import IncludesGraph IncludesRefine HostHistory HostTheorems HostFrame HostTotal HostExamples GenFileSystemEq PipelineHostFresh PipelineHostFrame PipelineHostExample PipelineAllHostProofs.
 Import ListNotations.
 Local Open Scope nat_scope.
 
@@ -134,6 +134,30 @@ Theorem C07_pipeline_history_independent :
       (forall f pos, an_references (an_state ws1) f pos = an_references (an_state ws2) f pos).
 Proof. exact pipeline_queries_history_independent. Qed.
 
+(** ... and for the COMPLETE modelled analysis (b-bridge's TG.Model.PipelineAll.analyze_all: index state, complete
+    symbol map, trees, links, per-file diagnostics): from the post-history state ([all_from_state],
+    TG.Model.PipelineAllHost) all NINE queries - goto_definition, references, diagnostics, document_symbol, hover,
+    inlay_hint, folding_range, document_link, completion - answer exactly as [analyze_all] from scratch over the
+    final contents, at every file number, position and range *)
+Theorem C07_nine_queries_history_independent :
+  forall pfuel cfuel1 cfuel2 (disk0 Ht : list (text * text)) (p t : text) (st1 : @Host.state fpath text) A,
+  let final := rev (Ht ++ [(p, t)]) ++ disk0 in
+  let dfs := disk_files_of pfuel final in
+  let n := S (List.length Ht) in
+  Host.run cfuel1 (world_of (skipn n dfs)) Host.st_init (rev (firstn n dfs)) = Done st1 ->
+  analyze_all pfuel cfuel2 final p = Some A ->
+  exists A1, all_from_state pfuel final st1 = Some A1 /\
+    (forall f pos, q_goto A1 f pos = q_goto A f pos) /\
+    (forall f pos, q_references A1 f pos = q_references A f pos) /\
+    (forall f, q_diagnostics A1 f = q_diagnostics A f) /\
+    (forall f, q_outline A1 f = q_outline A f) /\
+    (forall f pos, q_hover A1 f pos = q_hover A f pos) /\
+    (forall f lo hi, q_inlay A1 f lo hi = q_inlay A f lo hi) /\
+    (forall f, q_folding A1 f = q_folding A f) /\
+    (forall f, q_links A1 f = q_links A f) /\
+    (forall f pos trig, q_completion A1 f pos trig = q_completion A f pos trig).
+Proof. exact nine_queries_history_independent. Qed.
+
 (** [analyze] is [analyze_from_state] of the state after the first touch of a fresh host (there, ascending FileId
     order is walk order: HostAscending.touch_fresh_ascending) *)
 Theorem C07_analyze_is_from_state :
@@ -179,3 +203,4 @@ Print Assumptions C07_raw_api_refuted.
 Print Assumptions C07_model_is_source.
 Print Assumptions C07_pipeline_history_independent.
 Print Assumptions C07_analyze_is_from_state.
+Print Assumptions C07_nine_queries_history_independent.
